@@ -11,6 +11,7 @@ import (
 	"github.com/zclconf/go-cty/cty"
 	"github.com/zclconf/go-cty/cty/function"
 
+	"verif/engine/h/gen"
 	"verif/engine/h/seeds"
 	"verif/engine/vf"
 )
@@ -275,5 +276,21 @@ func H_Seed() {
 	vf.Observe("op", op)
 	vf.Observe("off", off)
 	all(src, which)
+	vf.Reach("done")
+}
+
+// H_Gen: every grammar-generated expression (package gen, depth bound) as an attribute
+// value and inside a template, through parse, schema application and evaluation in all scopes.
+func H_Gen() {
+	e := gen.Expr(vf.Param("depth", 1), vf.Concretize(vf.Choice(2)))
+	var src []byte
+	if vf.Concretize(vf.Choice(2)) == 0 {
+		src = []byte("foo = " + e + "\nb \"l\" {\n  a = [" + e + "]\n}\n")
+	} else {
+		src = []byte("foo = <<EOT\n  ${" + e + "}\nEOT\n")
+	}
+	vf.Observe("src", string(src))
+	nativeConfig(src)
+	writer(src)
 	vf.Reach("done")
 }
